@@ -8,8 +8,6 @@ use std::{borrow::Cow, vec::Vec};
 ///
 /// The common practise is to use the function `to_lossy_string` to convert to a standard Rust
 /// String.
-use itertools::Itertools;
-
 use super::control::ControlCharacter;
 
 const DEFAULT_CODEPAGE: char = 'L';
@@ -158,79 +156,83 @@ pub fn to_lossy_string(input: &[u8]) -> Cow<str> {
         return "".into();
     }
 
-    // find the positions in the input for each ^L, ^B...
-    let mut indices: Vec<usize> = input
-        .iter()
-        .tuple_windows()
-        .positions(|(elem, next)| elem.is_lfs_control_char() && next.is_lfs_codepage())
-        .collect();
-
     // allowing unwrap because if this panics we're screwed
     let default_lfs_codepage = DEFAULT_CODEPAGE
         .as_lfs_codepage()
         .unwrap_or_else(|| unreachable!());
 
-    if indices.is_empty() {
-        // no mappings at all, just encode it all as the default
-        let (cow, _encoding, _had_errors) = default_lfs_codepage.decode(input);
-        return cow;
-    }
-
-    // make sure we've got at least something in the indices
-    if indices.first() != Some(&0) {
-        indices.insert(0, 0);
-    }
-
-    // make sure we've got the last item in here as well
-    match indices.last() {
-        Some(last) => {
-            if *last != input.len() {
-                indices.push(input.len());
-            }
-        },
-        None => indices.push(input.len()),
-    };
-
-    // This pre-allocation is the best guess we can make here
+    // Scan left to right, exactly as LFS reads the text: `^^` is an escaped caret and never starts
+    // a codepage marker, and within a double byte codepage a lead byte swallows its trail byte,
+    // even when that trail byte happens to be `^`.
     let mut result = String::with_capacity(input.len());
+    let mut current = default_lfs_codepage;
+    let mut start = 0; // start of the run of bytes not yet decoded, all in `current`
+    let mut i = 0;
 
-    for pair in indices.windows(2) {
-        let range = &input[pair[0]..pair[1]];
-
-        if range.len() < 2 {
-            let (cow, _encoding, _had_errors) = default_lfs_codepage.decode(range);
+    fn flush(result: &mut String, encoding: &'static encoding_rs::Encoding, bytes: &[u8]) {
+        if !bytes.is_empty() {
+            // without BOM handling: FF FE / FE FF / EF BB BF are ordinary characters in every LFS codepage
+            let (cow, _had_errors) = encoding.decode_without_bom_handling(bytes);
             result.push_str(&cow);
+        }
+    }
+
+    while i < input.len() {
+        let byte = input[i];
+
+        if byte.is_lfs_control_char() {
+            match input.get(i + 1) {
+                Some(next) if next.is_lfs_control_char() => {
+                    // escaped caret, leave both in the current run
+                    i += 2;
+                },
+                Some(next) if next.is_lfs_codepage() => {
+                    flush(&mut result, current, &input[start..i]);
+
+                    // do we need to propagate the codepage because it has dual meaning?
+                    // i.e. ^8
+                    if next.propagate_lfs_codepage() {
+                        result.push(char::lfs_control_char());
+                        result.push(*next as char);
+                    }
+
+                    current = next
+                        .as_lfs_codepage()
+                        .unwrap_or_else(|| unreachable!());
+                    i += 2;
+                    start = i;
+                },
+                _ => {
+                    i += 1;
+                },
+            }
             continue;
         }
 
-        match (range[0].is_lfs_control_char(), range[1].as_lfs_codepage()) {
-            (false, _) | (true, None) => {
-                // No control character
-                // OR
-                // Has a control character, but next character is not a codepage
-                // THEN
-                // fallback to default codepage and ensure we include the prefix
-                let (cow, _encoding, _had_errors) = default_lfs_codepage.decode(range);
-                result.push_str(&cow);
-            },
-            (true, Some(mapping)) => {
-                // Has a control character and next character is a codepage
-
-                // do we need to propagate the codepage because it has dual meaning?
-                // i.e. ^8
-                if range[1].propagate_lfs_codepage() {
-                    result.push(char::lfs_control_char());
-                    result.push(range[1] as char);
-                }
-
-                // encode everything except the markers
-                let (cow, _encoding_used, _had_errors) = mapping.decode(&range[2..]);
-                result.push_str(&cow);
-            },
-        };
+        if is_lead_byte(current, byte) && i + 1 < input.len() {
+            i += 2;
+        } else {
+            i += 1;
+        }
     }
 
+    flush(&mut result, current, &input[start..]);
+
     result.into()
+}
+
+/// Is this the first byte of a two byte character in the given (double byte) codepage?
+fn is_lead_byte(encoding: &'static encoding_rs::Encoding, byte: u8) -> bool {
+    if encoding == encoding_rs::SHIFT_JIS {
+        matches!(byte, 0x81..=0x9F | 0xE0..=0xFC)
+    } else if encoding == encoding_rs::GBK
+        || encoding == encoding_rs::EUC_KR
+        || encoding == encoding_rs::BIG5
+    {
+        matches!(byte, 0x81..=0xFE)
+    } else {
+        false
+    }
 }
 
 #[cfg(test)]
